@@ -271,6 +271,8 @@ func Build(id, tier string, seed int64) (*BehavCheck, error) {
 				return nil, nil, err
 			}
 			v = append(v, runScenarios(id, seed, ev, map[string]func() string{
+				"empty-key-round-trip/plain":              allScenarios["empty-key-round-trip/plain"],
+				"empty-key-round-trip/compressed":         allScenarios["empty-key-round-trip/compressed"],
 				"multi-batch-import/index-on/plain":       allScenarios["multi-batch-import/index-on/plain"],
 				"multi-batch-import/index-off/compressed": allScenarios["multi-batch-import/index-off/compressed"],
 				"multi-batch-import/one-version/index-on": allScenarios["multi-batch-import/one-version/index-on"],
@@ -353,9 +355,10 @@ func Build(id, tier string, seed int64) (*BehavCheck, error) {
 		c.ExhD, c.ExhK = tierNum(tier, 3, 4), 2
 	}
 	// implementation -> specification: recorded random histories validated by TLC against IavlTrace.tla
-	if id == "C01" || id == "C02" || id == "C14" {
+	traceNum := map[string]int{"C01": 16, "C02": 16, "C14": 16, "C08": 8, "C09": 8, "C10": 8, "C11": 8, "C15": 8}[id]
+	if traceNum > 0 {
 		prev := c.PostRun
-		ts := traceStage(id, seed, tierNum(tier, 16, 320), tierNum(tier, 150, 300))
+		ts := traceStage(id, seed, tierNum(tier, traceNum, 20*traceNum), tierNum(tier, 150, 300))
 		c.PostRun = func(ev *Evidence) ([]string, []string, error) {
 			var vs, kn []string
 			if prev != nil {
